@@ -12,6 +12,8 @@ driver for C18 (`Float` instance of `OpacusLean.Model.Dist`).  One request per l
   D = Σ dims; floats are binary64 hex; noise = the value the patched `torch.normal` returns on
   that rank for that parameter in that step (a constant tensor).
 
+  avg <W> <P> <dims…P> <W·D floats>      `opacus.distributed.average_gradients`; reply: W·D floats
+
 reply:  `ok|<params after DPDDP construction, W·D>|<per step, per rank: grad D, params D>|<union run: per step grad D, params D>|<draws per step: n {rank p std}>|<expected_batch_size of the distributed / single-process optimizer>`
    or   `err <t> <ranks…>|…` with the steps before `t` (the hook raised on those ranks at step `t`). -/
 namespace Opacus.DistDriver
@@ -185,8 +187,22 @@ def runCase (h : Hdr) (toks : List String) : Option String :=
     | _, _ => none
   else none
 
+/-- `avg <W> <P> <dims…> <W·D floats>` → `average_gradients` on every rank (W·D floats) -/
+def runAvg (toks : List String) : Option String := do
+  match toks with
+  | w :: rest =>
+    let W ← w.toNat?
+    let (dimsL, rest) ← takeList? String.toNat? rest
+    let D := dimsL.foldl (· + ·) 0
+    if rest.length ≠ W * D then none else
+    let a := (← rest.mapM float?).toArray
+    let x : Fin W → G dimsL := fun w => mkGrad dimsL a (w.val * D)
+    pure (joinFloats (List.ofFn fun w => flatten (averageGradients x w)).flatten)
+  | [] => none
+
 def handle (line : String) : String :=
   match words line with
+  | "avg" :: rest => (runAvg rest).getD "bad-op"
   | "run" :: rest =>
     match parseHdr rest with
     | some (h, toks) => (runCase h toks).getD "bad-op"
